@@ -176,6 +176,22 @@ pub struct Cell {
     /// Rtp / Srtp modes: 0 = audio, 1 = audio + video, 2 = audio + video + second audio (one m-line each)
     #[serde(default)]
     pub media_mix: u8,
+    /// WebRtc: the application creates one more data channel (and starts recv() on it) bit 0: at the phase,
+    /// right before the event; bit 1: after the event, once the connection reported its end (or the bound
+    /// passed); bit 2: after the final close()
+    #[serde(default)]
+    pub late_channel: u8,
+    /// the late channel is negotiated (out of band) instead of opened with DCEP
+    #[serde(default)]
+    pub late_negotiated: bool,
+    /// caller context of close() and of the final drop: 0 a task of the endpoint's runtime, 1 a plain
+    /// std::thread (no tokio context), 2 a plain thread after the endpoint's runtime has been shut down
+    /// (single close / drop cells only), 3 a spawn_blocking section
+    #[serde(default)]
+    pub caller: u8,
+    /// `RtcConfiguration::runtime_handle` = Some(handle of the endpoint's runtime) instead of None
+    #[serde(default)]
+    pub rt_handle: bool,
     /// Rtp / Srtp modes: `sdp_compatibility = LegacySip` (no a=mid, no BUNDLE, no rtcp-mux: RTCP on port + 1)
     #[serde(default)]
     pub legacy_sip: bool,
@@ -205,6 +221,12 @@ impl Cell {
     }
     fn coord(&self) -> String {
         format!("{}/{}/{}", self.phase.name(), self.event_name(), self.mode.name())
+    }
+    /// caller context that applies to this cell (the dead-runtime context only makes sense when the
+    /// application's own close / drop is the one and only event)
+    fn caller_ctx(&self) -> u8 {
+        let c = self.caller % 4;
+        if c == 2 && !(self.second.is_none() && !self.blocked && matches!(self.event, Event::Close | Event::DropAll)) { 1 } else { c }
     }
     fn n_senders(&self) -> usize {
         if self.blocked { self.senders.clamp(1, 4) as usize } else { 0 }
@@ -672,6 +694,8 @@ enum DcEv {
 }
 
 struct Chan {
+    /// created late by the application: "phase", "after-event", "after-close"
+    late: Option<String>,
     id: u16,
     dc: Arc<DataChannel>,
     log: Arc<Mutex<Vec<(DcEv, Instant)>>>,
@@ -697,7 +721,7 @@ fn watch_channel(h: &Handle, dc: Arc<DataChannel>) -> Chan {
             }
         }
     });
-    Chan { id: dc.id, dc, log, task }
+    Chan { late: None, id: dc.id, dc, log, task }
 }
 
 impl Chan {
@@ -730,6 +754,8 @@ struct Node {
     advertised: Vec<SocketAddr>,
     /// a transport was attached before the event (sender / receiver loops run from then on)
     transport_started: bool,
+    /// the endpoint's runtime has been shut down (caller context 2)
+    dead_rt: bool,
     media: Option<MediaKit>,
     transceivers: Vec<Arc<rustrtc::peer_connection::RtpTransceiver>>,
 }
@@ -740,6 +766,23 @@ impl Drop for Node {
         if let Some(rt) = self.rt.take() {
             rt.shutdown_background();
         }
+    }
+}
+
+#[derive(Clone, Copy, Default)]
+struct NodeOpts {
+    blocked: bool,
+    legacy_sip: bool,
+    rt_handle: bool,
+}
+
+fn panic_text(p: Box<dyn std::any::Any + Send>) -> String {
+    if let Some(s) = p.downcast_ref::<&str>() {
+        s.to_string()
+    } else if let Some(s) = p.downcast_ref::<String>() {
+        s.clone()
+    } else {
+        "non-string panic".into()
     }
 }
 
@@ -767,11 +810,8 @@ fn node_config(mode: Mode, ip: Ipv4Addr, blocked: bool, stun_blackhole: Option<S
 }
 
 impl Node {
-    async fn new(side: usize, mode: Mode, blocked: bool, stun_blackhole: Option<SocketAddr>) -> Result<Node, String> {
-        Self::new_compat(side, mode, blocked, stun_blackhole, false).await
-    }
-
-    async fn new_compat(side: usize, mode: Mode, blocked: bool, stun_blackhole: Option<SocketAddr>, legacy_sip: bool) -> Result<Node, String> {
+    async fn new_opts(side: usize, mode: Mode, stun_blackhole: Option<SocketAddr>, opts: NodeOpts) -> Result<Node, String> {
+        let (blocked, legacy_sip) = (opts.blocked, opts.legacy_sip);
         let ip = unique_ip();
         // Srtp mode: a single worker sidesteps the (separately reported) race between
         // set_remote_description and the direct-mode transport loop
@@ -783,7 +823,10 @@ impl Node {
             .build()
             .map_err(|e| format!("runtime: {e}"))?;
         let h = rt.handle().clone();
-        let cfg = node_config(mode, ip, blocked, stun_blackhole, legacy_sip);
+        let mut cfg = node_config(mode, ip, blocked, stun_blackhole, legacy_sip);
+        if opts.rt_handle {
+            cfg.runtime_handle = Some(h.clone());
+        }
         let pc = match call(&h, Duration::from_secs(5), async move { PeerConnection::new(cfg) }).await {
             CallRes::Done(pc, _) => pc,
             CallRes::Hang => return Err("PeerConnection::new hangs".into()),
@@ -805,6 +848,7 @@ impl Node {
             blocked_sends: Vec::new(),
             advertised: Vec::new(),
             transport_started: false,
+            dead_rt: false,
             media: None,
             transceivers: Vec::new(),
         })
@@ -812,6 +856,123 @@ impl Node {
 
     fn pc(&self) -> PeerConnection {
         self.pc.clone().expect("handle alive")
+    }
+
+    /// where later API calls run: the endpoint's runtime, or a fresh one once that is gone
+    fn api(&self) -> Handle {
+        if self.dead_rt { infra().handle().clone() } else { self.h.clone() }
+    }
+
+    /// Run a synchronous call (close(), a drop) in caller context `ctxk` under the watchdog; a panic of the
+    /// call is caught in the calling thread and reported with its message.
+    async fn in_context(&self, ctxk: u8, limit: Duration, f: impl FnOnce() + Send + 'static) -> CallRes<()> {
+        let t = Instant::now();
+        let guarded = move || std::panic::catch_unwind(std::panic::AssertUnwindSafe(f)).map_err(panic_text);
+        let r: Result<Result<Result<(), String>, String>, ()> = match ctxk {
+            0 if !self.dead_rt => {
+                let mut jh = self.h.spawn(async move { guarded() });
+                match tokio::time::timeout(limit, &mut jh).await {
+                    Ok(r) => Ok(r.map_err(|e| format!("{e}"))),
+                    Err(_) => {
+                        jh.abort();
+                        Err(())
+                    }
+                }
+            }
+            3 if !self.dead_rt => {
+                let jh = self.h.spawn_blocking(guarded);
+                match tokio::time::timeout(limit, jh).await {
+                    Ok(r) => Ok(r.map_err(|e| format!("{e}"))),
+                    Err(_) => Err(()),
+                }
+            }
+            _ => {
+                let (tx, rx) = tokio::sync::oneshot::channel();
+                let spawned = std::thread::Builder::new().name("c17-plain".into()).spawn(move || {
+                    // a plain thread: no runtime context here
+                    let _ = tx.send((guarded(), tokio::runtime::Handle::try_current().is_ok()));
+                });
+                if let Err(e) = spawned {
+                    return CallRes::Panic(format!("cannot spawn thread: {e}"));
+                }
+                match tokio::time::timeout(limit, rx).await {
+                    Ok(Ok((r, _had_ctx))) => Ok(Ok(r)),
+                    Ok(Err(_)) => Ok(Err("the calling thread died".into())),
+                    Err(_) => Err(()),
+                }
+            }
+        };
+        match r {
+            Ok(Ok(Ok(()))) => CallRes::Done((), t.elapsed()),
+            Ok(Ok(Err(p))) => CallRes::Panic(p),
+            Ok(Err(e)) => CallRes::Panic(e),
+            Err(()) => CallRes::Hang,
+        }
+    }
+
+    /// caller context 2: shut the endpoint's runtime down (every task of the connection dies with it)
+    async fn kill_runtime(&mut self) {
+        if let Some(rt) = self.rt.take() {
+            let (tx, rx) = tokio::sync::oneshot::channel();
+            let _ = std::thread::Builder::new().name("c17-rtkill".into()).spawn(move || {
+                rt.shutdown_timeout(Duration::from_secs(3));
+                let _ = tx.send(());
+            });
+            let _ = tokio::time::timeout(Duration::from_secs(5), rx).await;
+        }
+        self.dead_rt = true;
+    }
+
+    /// after the runtime is gone: the calls that were pending on it died with it; recv() is issued again on
+    /// every channel from a fresh runtime (queued events are still there)
+    async fn after_runtime_death(&mut self) {
+        for p in [self.pump.take(), self.wfc.take()].into_iter().flatten().chain(std::mem::take(&mut self.blocked_sends)) {
+            p.kill().await;
+        }
+        if let Some(m) = self.media.as_mut() {
+            if let Some(f) = m.feeder.take() {
+                f.abort();
+            }
+        }
+        let fresh = infra().handle().clone();
+        let mut g = self.chans.lock();
+        for c in g.iter_mut() {
+            c.task.abort();
+            let again = watch_channel(&fresh, c.dc.clone());
+            // keep what the first collector saw
+            let seen: Vec<(DcEv, Instant)> = c.log.lock().clone();
+            *again.log.lock() = seen;
+            c.log = again.log;
+            c.task = again.task;
+        }
+    }
+
+    /// the application creates one more channel now and starts recv() on it
+    fn create_late_channel(&mut self, cell: &Cell, tag: &str, out: &mut Outcome) {
+        let Some(pc) = self.pc.clone() else { return };
+        // on a connection that already reports Closed this is the "after close()" point, whatever closed it
+        let closed = self.state() == PeerConnectionState::Closed;
+        if closed && SKIP_DC_AFTER_CLOSE.load(Ordering::Relaxed) {
+            out.skipped.push(SIG_DC_AFTER_CLOSE);
+            return;
+        }
+        let tag = if closed { "after-close" } else { tag };
+        let neg = if cell.late_negotiated { Some(40 + self.chans.lock().len() as u16) } else { None };
+        let cfg = DataChannelConfig { ordered: true, negotiated: neg, ..Default::default() };
+        match std::panic::catch_unwind(std::panic::AssertUnwindSafe(|| pc.create_data_channel(&format!("late-{tag}"), Some(cfg)))) {
+            Ok(Ok(dc)) => {
+                out.notes.push(format!("late channel ({tag}, id {}, {}) created in state {:?}", dc.id, if neg.is_some() { "negotiated" } else { "in-band" }, rustrtc::DataChannelState::from(dc.state.load(Ordering::SeqCst))));
+                out.labels.push(format!("late-dc:{tag}"));
+                let mut c = watch_channel(&self.api(), dc);
+                c.late = Some(tag.to_string());
+                self.chans.lock().push(c);
+            }
+            Ok(Err(e)) => {
+                out.notes.push(format!("late channel ({tag}) refused: {e}"));
+                out.labels.push(format!("late-dc:{tag}:refused"));
+            }
+            Err(p) => out.fail(cell, "create_data_channel-panics", false, format!("create_data_channel ({tag}) panicked: {}", panic_text(p))),
+        }
     }
 
     fn alive_tasks(&self) -> usize {
@@ -1081,8 +1242,8 @@ async fn reach_phase(cell: &Cell, out: &mut Outcome) -> Result<PairRig, String> 
         stun_hole = Some(s);
     }
     let legacy = cell.legacy_sip && mode != Mode::WebRtc;
-    let o = Node::new_compat(0, mode, cell.blocked && subject == 0, hole_addr, legacy).await?;
-    let n = Node::new_compat(1, mode, cell.blocked && subject == 1, None, legacy).await?;
+    let o = Node::new_opts(0, mode, hole_addr, NodeOpts { blocked: cell.blocked && subject == 0, legacy_sip: legacy, rt_handle: cell.rt_handle && subject == 0 }).await?;
+    let n = Node::new_opts(1, mode, None, NodeOpts { blocked: cell.blocked && subject == 1, legacy_sip: legacy, rt_handle: cell.rt_handle && subject == 1 }).await?;
     let mut rig = PairRig { proxy, o, n, _stun_hole: stun_hole };
 
     // what the session carries
@@ -1271,7 +1432,7 @@ async fn fire_event(ev: Event, cell: &Cell, rig: &mut PairRig, subject: usize, o
     match ev {
         Event::Close => {
             let pc = rig.node(subject).pc();
-            match call(&rig.node(subject).h, LOCAL_BOUND, async move { pc.close() }).await {
+            match rig.node(subject).in_context(cell.caller_ctx(), LOCAL_BOUND, move || pc.close()).await {
                 CallRes::Done(_, d) => out.notes.push(format!("close() took {d:?}")),
                 CallRes::Hang => out.fail(cell, "close-hangs", true, "close() did not return within 2 s".into()),
                 CallRes::Panic(p) => out.fail(cell, "close-panics", false, format!("close() panicked: {p}")),
@@ -1292,12 +1453,13 @@ async fn fire_event(ev: Event, cell: &Cell, rig: &mut PairRig, subject: usize, o
             let pc = node.pc.take();
             let media = node.media.take();
             let trs = std::mem::take(&mut node.transceivers);
-            match call(&node.h, LOCAL_BOUND, async move {
-                drop(media);
-                drop(trs);
-                drop(pc);
-            })
-            .await
+            match node
+                .in_context(cell.caller_ctx(), LOCAL_BOUND, move || {
+                    drop(media);
+                    drop(trs);
+                    drop(pc);
+                })
+                .await
             {
                 CallRes::Done(_, d) => out.notes.push(format!("drop took {d:?}")),
                 CallRes::Hang => out.fail(cell, "drop-hangs", true, "dropping the handles did not return within 2 s".into()),
@@ -1414,7 +1576,11 @@ async fn check_channels(cell: &Cell, node: &Node, t_ref: Instant, out: &mut Outc
             if closes > 1 {
                 out.fail(cell, "dc-close-twice", false, format!("never-opened channel {} saw {} Close events", c.id, closes));
             }
-            if final_stage && !ended {
+            if final_stage && !ended && c.late.as_deref() == Some("after-close") {
+                out.fail_global(SIG_DC_AFTER_CLOSE, true, format!("data channel {} created on a Closed connection was accepted (state Connecting) but its recv() does not return within 2 s: nothing will ever close it [{}]", c.id, cell.coord()));
+            } else if final_stage && !ended && c.late.is_some() {
+                out.fail(cell, "late-dc-recv-hangs", true, format!("channel {} created by the application {} never opened; its pending recv() did not return within 2 s of the connection being closed or dropped (log {:?})", c.id, c.late.as_deref().unwrap_or(""), c.log.lock().iter().map(|x| x.0).collect::<Vec<_>>()));
+            } else if final_stage && !ended {
                 if SKIP_DC_UNOPENED.load(Ordering::Relaxed) {
                     out.skipped.push(SIG_DC_UNOPENED);
                 } else {
@@ -1471,8 +1637,13 @@ async fn wait_pending(p: &Option<Pending>, until: Instant) {
 /// calls issued after the connection became terminal
 async fn after_calls(cell: &Cell, node: &Node, out: &mut Outcome, terminal: bool) {
     let Some(pc) = node.pc.clone() else { return };
-    let ch = node.chans.lock().first().map(|c| c.id).unwrap_or(0);
-    let h = &node.h;
+    let ch = {
+        let g = node.chans.lock();
+        // prefer a channel the application created late: it has to behave like any other
+        g.iter().rev().find(|c| c.late.is_some()).or(g.first()).map(|c| c.id).unwrap_or(0)
+    };
+    let api = node.api();
+    let h = &api;
     let (p1, p2, p3) = (pc.clone(), pc.clone(), pc.clone());
     let a = call(h, LOCAL_BOUND, async move { p1.send_data(ch, b"after").await.map_err(|e| format!("{e}")) });
     let b = call(h, LOCAL_BOUND, async move { p2.create_offer().await.map(|_| ()).map_err(|e| format!("{e}")) });
@@ -1569,12 +1740,20 @@ async fn release_node(cell: &Cell, mut node: Node, who: &str, out: &mut Outcome)
     let media = node.media.take();
     let trs = std::mem::take(&mut node.transceivers);
     let chans: Vec<Chan> = std::mem::take(&mut *node.chans.lock());
-    let _ = call(&node.h, LOCAL_BOUND, async move {
-        drop(media);
-        drop(trs);
-        drop(pc);
-    })
-    .await;
+    // the final drop happens in the cell's caller context (the peer's always inside its runtime)
+    let ctxk = if who.is_empty() { cell.caller_ctx() } else { 0 };
+    match node
+        .in_context(ctxk, LOCAL_BOUND, move || {
+            drop(media);
+            drop(trs);
+            drop(pc);
+        })
+        .await
+    {
+        CallRes::Done(..) => {}
+        CallRes::Hang => out.fail(cell, &format!("final-drop-hangs{who}"), true, "dropping the last handles did not return within 2 s".into()),
+        CallRes::Panic(p) => out.fail(cell, &format!("final-drop-panics{who}"), false, format!("dropping the last handles panicked: {p}")),
+    }
     for c in chans {
         c.task.abort();
         let _ = c.task.await;
@@ -1644,13 +1823,16 @@ async fn finish_subject(cell: &Cell, mut node: Node, t0: Instant, bound: Duratio
         out.labels.push("undetectable-by-design".into());
         tokio::time::sleep(Duration::from_millis(300)).await;
     }
+    if cell.late_channel & 2 != 0 && cell.mode == Mode::WebRtc {
+        node.create_late_channel(cell, "after-event", out);
+    }
     after_calls(cell, &node, out, terminal && detectable).await;
 
     // ---- close (again): a second close(), or the application's reaction to the failure
     if node.pc.is_some() {
         let pc = node.pc();
         let tc = Instant::now();
-        match call(&node.h, LOCAL_BOUND, async move { pc.close() }).await {
+        match node.in_context(cell.caller_ctx(), LOCAL_BOUND, move || pc.close()).await {
             CallRes::Done(_, _) => {}
             CallRes::Hang => out.fail(cell, "second-close-hangs", true, "close() after the event did not return within 2 s".into()),
             CallRes::Panic(p) => out.fail(cell, "second-close-panics", false, format!("close() after the event panicked: {p}")),
@@ -1680,6 +1862,28 @@ async fn finish_subject(cell: &Cell, mut node: Node, t0: Instant, bound: Duratio
         check_channels(cell, &node, tc, out, true).await;
         if !detectable {
             after_calls(cell, &node, out, true).await;
+        }
+        if cell.late_channel & 4 != 0 && cell.mode == Mode::WebRtc && SKIP_DC_AFTER_CLOSE.load(Ordering::Relaxed) {
+            out.skipped.push(SIG_DC_AFTER_CLOSE);
+        } else if cell.late_channel & 4 != 0 && cell.mode == Mode::WebRtc {
+            // a channel created on a closed connection: refused, or born closed - never a recv() that hangs
+            let before = node.chans.lock().len();
+            node.create_late_channel(cell, "after-close", out);
+            let chans = node.chans.clone();
+            if chans.lock().len() > before {
+                let ended = wait_until(LOCAL_BOUND, || chans.lock().last().map(|c| c.count(DcEv::End) > 0).unwrap_or(true)).await;
+                if !ended {
+                    out.fail_global(SIG_DC_AFTER_CLOSE, true, format!("a data channel created after close() was accepted (state Connecting) but its recv() does not return within 2 s: nothing will ever close it [{}]", cell.coord()));
+                }
+                let closes = chans.lock().last().map(|c| c.count(DcEv::Close)).unwrap_or(0);
+                if closes > 1 {
+                    out.fail(cell, "dc-close-twice", false, format!("the channel created after close() saw {closes} Close events"));
+                }
+                // it has been judged here
+                if let Some(c) = chans.lock().last_mut() {
+                    c.late = Some("after-close(judged)".into());
+                }
+            }
         }
         held_handle_release(cell, &node, out).await;
     } else if !alive_after_drop {
@@ -1741,6 +1945,18 @@ async fn run_pair_cell(cell: Cell) -> Outcome {
     {
         let node = rig.node_mut(subject);
         node.transport_started = node.state() == PeerConnectionState::Connected || ice_up(*node.ice.borrow());
+    }
+    if cell.late_channel & 1 != 0 && cell.mode == Mode::WebRtc {
+        rig.node_mut(subject).create_late_channel(&cell, "phase", &mut out);
+    }
+    out.labels.push(format!("caller:{}", ["runtime-task", "plain-thread", "plain-thread-after-runtime-shutdown", "spawn_blocking"][cell.caller_ctx() as usize]));
+    out.labels.push(if cell.rt_handle { "runtime_handle:some".into() } else { "runtime_handle:none".into() });
+    if cell.caller_ctx() == 2 {
+        // the runtime that created the connection is shut down first
+        let node = rig.node_mut(subject);
+        node.kill_runtime().await;
+        node.after_runtime_death().await;
+        out.notes.push(format!("runtime shut down: {} task(s) left on it", node.alive_tasks()));
     }
     // ---- fire
     let t0 = Instant::now();
@@ -2203,7 +2419,7 @@ fn subject_addr_and_fp(offer: &SessionDescription) -> Result<(SocketAddr, Option
 
 async fn run_low_cell(cell: Cell) -> Outcome {
     let mut out = Outcome::default();
-    let mut s = match Node::new(0, Mode::WebRtc, cell.blocked, None).await {
+    let mut s = match Node::new_opts(0, Mode::WebRtc, None, NodeOpts { blocked: cell.blocked, legacy_sip: false, rt_handle: cell.rt_handle }).await {
         Ok(n) => n,
         Err(e) => {
             out.fail(&cell, "phase-not-reached", false, e);
@@ -2282,6 +2498,11 @@ async fn run_low_cell(cell: Cell) -> Outcome {
         }
     }
     tokio::time::sleep(Duration::from_millis(cell.fire_delay_ms as u64)).await;
+    if cell.late_channel & 1 != 0 {
+        s.create_late_channel(&cell, "phase", &mut out);
+    }
+    out.labels.push(format!("caller:{}", ["runtime-task", "plain-thread", "plain-thread-after-runtime-shutdown", "spawn_blocking"][cell.caller_ctx() as usize]));
+    out.labels.push(if cell.rt_handle { "runtime_handle:some".into() } else { "runtime_handle:none".into() });
 
     // ---- fire: the remote SCTP event, possibly racing with a local one
     let t0 = Instant::now();
@@ -2401,6 +2622,8 @@ const SIG_PC_RECV: &str = "pc-recv-never-returns-after-close";
 const SIG_SRTP_RACE: &str = "srtp-transport-start-races-with-descriptions";
 const SIG_F13: &str = "tasks-leak@dtls-handshaking/close/webrtc";
 const SIG_DC_UNOPENED: &str = "dc-recv-never-returns-for-unopened-channel";
+const SIG_DC_AFTER_CLOSE: &str = "create_data_channel-after-close-recv-never-returns";
+static SKIP_DC_AFTER_CLOSE: AtomicBool = AtomicBool::new(false);
 static SKIP_PC_RECV: AtomicBool = AtomicBool::new(false);
 static SKIP_DC_UNOPENED: AtomicBool = AtomicBool::new(false);
 
@@ -2472,6 +2695,8 @@ fn matrix(ctx: &Ctx) -> Vec<Cell> {
     let sender_trees = ctx.draw("matrix-senders", n, &(1u8..=4, 1u8..=3));
     // Rtp / Srtp: media mix x SDP compatibility (own stream)
     let media_trees = ctx.draw("matrix-media", n, &(0u8..3, any::<bool>()));
+    // orthogonal application ops (own stream): late data channel points, caller context, runtime_handle
+    let op_trees = ctx.draw("matrix-ops", n, &(0u8..8, any::<bool>(), 0u8..4, any::<bool>()));
     let mut out = Vec::new();
     for r in 0..reps {
         for (i, (p, e, m, blocked)) in coords.iter().enumerate() {
@@ -2520,6 +2745,21 @@ fn matrix(ctx: &Ctx) -> Vec<Cell> {
                     }
                 }
             }
+            let (mut late_channel, late_negotiated, mut caller, rt_handle) = op_trees[r * coords.len() + i].current();
+            if r == 0 {
+                // first pass: the caller contexts are spread evenly over the cells, and the late-channel points
+                // that only exist for some events are always taken (after a remote end event, after close())
+                caller = ((i as u64 + ctx.seed) % 4) as u8;
+                if !e.local() {
+                    late_channel |= 2;
+                }
+                if *e == Event::Close {
+                    late_channel |= 4;
+                }
+            }
+            if *m != Mode::WebRtc {
+                late_channel = 0;
+            }
             out.push(Cell {
                 phase: *p,
                 event: *e,
@@ -2528,6 +2768,10 @@ fn matrix(ctx: &Ctx) -> Vec<Cell> {
                 blocked: *blocked,
                 senders,
                 sender_channels,
+                late_channel,
+                late_negotiated,
+                caller,
+                rt_handle,
                 media_mix,
                 legacy_sip,
                 subject_offerer,
@@ -2581,6 +2825,10 @@ fn race_strategy() -> impl Strategy<Value = Cell> {
             blocked: false,
             senders: 0,
             sender_channels: 0,
+            late_channel: 0,
+            late_negotiated: false,
+            caller: 0,
+            rt_handle: false,
             media_mix: if mode == Mode::WebRtc { 0 } else { stall % 3 },
             legacy_sip: mode != Mode::WebRtc && delay % 2 == 1,
             subject_offerer: so || low,
@@ -2721,7 +2969,33 @@ fn judge(ctx: &Ctx, sub: &str, results: Vec<(Cell, Outcome)>) {
     }
 }
 
+// A panic inside a destructor of the code under test while another panic unwinds ("panic in a destructor
+// during cleanup") aborts the whole process. That is itself a violation of "close / drop is harmless"; make
+// sure it is reported as one (exit code 1) instead of a bare SIGABRT. libc is linked by std; only
+// async-signal-safe calls are made in the handler.
+unsafe extern "C" {
+    fn signal(signum: i32, handler: usize) -> usize;
+    fn write(fd: i32, buf: *const u8, count: usize) -> isize;
+    fn _exit(code: i32) -> !;
+}
+
+extern "C" fn on_abort(_sig: i32) {
+    const MSG: &[u8] = b"\nVIOLATION property=C17 replay=none\n  sub=matrix signature=process-abort\n  the process was aborted by a non-unwinding panic (a destructor of the code under test panicked during cleanup) while a C17 case was running; see the [panic] lines above (VERIF_VERBOSE=1)\n";
+    unsafe {
+        let _ = write(1, MSG.as_ptr(), MSG.len());
+        _exit(1);
+    }
+}
+
+fn install_abort_reporter() {
+    const SIGABRT: i32 = 6;
+    unsafe {
+        let _ = signal(SIGABRT, on_abort as *const () as usize);
+    }
+}
+
 pub fn run(ctx: &mut Ctx) {
+    install_abort_reporter();
     ctx.level = "fault_enumeration";
     ctx.rule = "matrix: one case per applicable (phase, terminating event, transport mode) cell on two real PeerConnections joined by a harness UDP proxy (peer SCTP ABORT/SHUTDOWN: against a low-level peer that speaks STUN/DTLS/SCTP and injects hand-made chunks), knobs (subject side, channel count, in-band vs negotiated channels, firing delay, stall direction) drawn from the seed; race: two events released by a barrier. Non-trivial = the case reached its phase and is not (created, close); distinct = distinct (cell, knobs).".into();
     ctx.assumptions = vec![
@@ -2741,6 +3015,7 @@ pub fn run(ctx: &mut Ctx) {
     ];
     SKIP_PC_RECV.store(ctx.is_known(SIG_PC_RECV), Ordering::Relaxed);
     SKIP_DC_UNOPENED.store(ctx.is_known(SIG_DC_UNOPENED), Ordering::Relaxed);
+    SKIP_DC_AFTER_CLOSE.store(ctx.is_known(SIG_DC_AFTER_CLOSE), Ordering::Relaxed);
     let conc: usize = std::env::var("C17_CONC").ok().and_then(|s| s.parse().ok()).unwrap_or(16);
     let only = std::env::var("C17_ONLY").ok();
     let keep = |c: &Cell| only.as_ref().map(|o| c.coord().contains(o.as_str())).unwrap_or(true);
